@@ -252,3 +252,8 @@ def run(ctx):
     # R03.8 = R11.2: the neighbour sets of assemble_matrix are cell_supp_indices(remove_dirichlet=False)
     import rules.C11 as c11
     ctx.shared(c11.r11_2, 'R11.2', 'R03.8')
+    # R03.9 = R04.4 (cached index lists place the inter-level blocks), R03.10 = R05.6 (truncation structure behind thb_to_hb)
+    import rules.C04 as c04
+    import rules.C05 as c05
+    ctx.shared(c04.r04_4, 'R04.4', 'R03.9')
+    ctx.shared(c05.r05_6, 'R05.6', 'R03.10')
